@@ -3,6 +3,7 @@ add / remove are inlined at MIR level, so any spelling — helper calls, masks, 
 expression is compared with the specification by truth table: all 256 bit patterns (x both values of the boolean argument). The
 specification is written in terms of the NAMES of the flag constants; their values are read from the crate."""
 from .. import mirlib as M
+from .common import ret_points
 from ..core import MissingAnchor
 from .common import *
 
@@ -109,8 +110,14 @@ def summarise(F, b):
     if b.back_edges():
         raise Unknown('loop in ' + b.name)
     paths = []
+    # switches of (debug_)assert!s: one side can only panic. Their conditions are post-/pre-conditions that hold on every returning path
+    # by the no-panic assumption; they may be evaluated AFTER the write, so they must not be judged on the initial bits
+    rets_ = set(bb_ for (bb_, _) in ret_points(b))
+    def returns_(bb_):
+        return any(p_[0] in rets_ for p_ in b.reach([(bb_, 0)])) or bb_ in rets_
+    assert_sw = set(bbk for bbk in b.live_blocks() if b.term(bbk)['k'] == 'switch' and any(not returns_(tb) for (tb, lab) in b.succ(bbk)))
     for (edges, blocks, end) in M.enumerate_paths(b, (0, 0)):
-        atoms = M.path_atoms(b, edges)
+        atoms = M.path_atoms(b, [e_ for e_ in edges if e_[0] not in assert_sw])
         if not M.consistent(atoms):
             continue
         rt = _path_ret(b, blocks, end)
